@@ -554,7 +554,7 @@ Proof.
                               (tc_len best) Hp) as [Hp' Hle].
       pose proof (halve_lt (Z.to_nat (Z.log2 (m_chunk_size s))) (m_chunk_size s) (tc_len best)
                            Hp ltac:(lia)) as Hlt.
-      split; [exact Hle|]. split; [exact Hp'|]. intros Heq. Show. lia.
+      split; [exact Hle|]. split; [exact Hp'|]. intros Heq. lia.
 Qed.
 
 Lemma decide_never_stops :
